@@ -59,6 +59,12 @@ FnM      == JsonDeserialize("od_fnm.json")
 FnN      == JsonDeserialize("od_fnn.json")
 Samples  == JsonDeserialize("od_samples.json")
 
+\* Configurations whose triples are scanned.  Desc = reverse of asc is checked on
+\* every pair (DescAt), and the reverse of a total preorder is a total preorder,
+\* so the quick tier scans the triples of the two ascending configurations only;
+\* the thorough tier scans all four.
+CONSTANT TripleCfgs
+
 U    == 1..N
 Cfgs == {"am", "an", "dm", "dn"}     \* asc|desc x nullsMax|nullsMin
 
@@ -158,7 +164,7 @@ TripleBad(k, x, y) ==
        IN   {<<"transleq", y, c, Class(R, x, y, c)>> : c \in leq}
        \cup {<<"transeq", y, c, Class(R, x, y, c)>> : c \in eq}
 
-RowBad(k, x) == UNION {PairBad(k, x, y) \cup TripleBad(k, x, y) : y \in U}
+RowBad(k, x) == UNION {PairBad(k, x, y) \cup (IF k \in TripleCfgs THEN TripleBad(k, x, y) ELSE {}) : y \in U}
 
 Scan == /\ phase = "picked"
         /\ phase' = "done"
@@ -180,6 +186,7 @@ TypeOK == /\ phase \in {"init", "picked", "done"}
 
 \* --------------------------------------------------------------- non-vacuity
 ASSUME N >= 20
+ASSUME {"am", "an"} \subseteq TripleCfgs /\ TripleCfgs \subseteq Cfgs
 ASSUME \A k \in Cfgs : DOMAIN Cmp(k) = U /\ \A x \in U : DOMAIN Cmp(k)[x] = U
 ASSUME \E x \in U, y \in U : x # y /\ CmpAM[x][y] = 0 /\ ~IsNullV[x]   \* a non-trivial equivalence class
 ASSUME \E x \in U, y \in U : CmpAM[x][y] < 0 /\ CmpDM[x][y] > 0
